@@ -118,7 +118,14 @@ def main(tier):
     for _ in range(400 if tier == "quick" else 8000):
         s = rng.choice(low[:-1]) + "".join(rng.choice(low) for _ in range(rng.randint(0, 79)))
         cs.append(("strc", s))
-    words = [w for w in D.contents[:: max(1, len(D.contents) // 3000)] if w.isascii()]
+    words = [w for w in D.contents[:: max(1, len(D.contents) // (3000 if tier == "quick" else 1))] if w.isascii()]
+    # the ends of both dictionaries (index boundaries of the two-character and one-character codes)
+    edge = [w for w in (D.contents[:40] + D.contents[-40:] + list(D.small_dictionary[:20]) + list(D.small_dictionary[-20:]))
+            if w and w.isascii() and "`" not in w and "\\" not in w]
+    for w in edge:
+        cs.append(("dict", w))
+        cs.append(("dict", "say " + w + " twice " + w))
+    words = words + edge
     asc = [c for c in string.printable[:95] if c not in "\\`"]
     for _ in range(600 if tier == "quick" else 10000):
         parts = []
